@@ -677,6 +677,27 @@ def D70():
     return 'extra costs from the price data: %d variables with ec = 0.1, %d with ec = 0; window fixed to the previous solution: %s' % (len(resA.x), len(opC.c), r if isinstance(r, str) else 'solved')
 
 
+@witness
+def D71():
+    tg = A.Timegrid(dt.date(2021, 1, 1), dt.datetime(2021, 1, 3, 12), freq='h')
+    s = A.Storage('sto', N1, size=10., cap_in=1., cap_out=1., start_level=0., end_level=5., block_size='d')
+    m = A.SimpleContract(name='market', price='price', nodes=N1, min_cap=-50., max_cap=50.)
+    p = {'price': 30. + 10. * np.sin(np.arange(tg.T) / 24. * 2 * np.pi)}
+    pf = eao.portfolio.Portfolio([s, m]); op = pf.setup_optim_problem(p, tg); res = op.optimize()
+    fl = eao.io.extract_output(pf, op, res, p)['internal_variables']['sto_fill_level'].values
+    return 'storage of size 10 with daily blocks, start level 0, end level 5: reported fill level reaches %.1f (last step %.1f); in the restrictions every block restarts at the start level' % (fl.max(), fl[-1])
+
+
+@witness
+def D72():
+    tg = A.Timegrid(dt.date(2021, 1, 1), dt.date(2021, 1, 3), freq='h')
+    cap = {'start': [dt.datetime(2021, 1, 1), dt.datetime(2021, 1, 1, 12)], 'end': [dt.datetime(2021, 1, 1, 12), dt.datetime(2021, 1, 3)], 'values': [10., 0.]}
+    prices = {'p': np.ones(48), 'cap': np.r_[10 * np.ones(12), np.zeros(36)]}
+    u1 = A.SimpleContract(name='a', nodes=N1, price='p', min_cap=0., max_cap=cap, freq='d').setup_optim_problem(prices, tg).u
+    u2 = A.SimpleContract(name='a', nodes=N1, price='p', min_cap=0., max_cap='cap', freq='d').setup_optim_problem(prices, tg).u
+    return 'daily contract on an hourly grid, limit 10 for the first 12 h, then 0: capacity per day %s as dictionary, %s as series' % (u1.tolist(), u2.tolist())
+
+
 if __name__ == '__main__':
     which = sys.argv[1:] or list(W)
     for k in which:
